@@ -161,6 +161,15 @@ pub fn build(bars: &[(usize, BarKind, u64)], caps: &[VCap], reverse_layout: bool
     Built { bus, dev, trace, func: f }
 }
 
+/// Clears the capabilities-list bit of the function's status register: the capabilities pointer
+/// and the chain behind it stay in configuration space but are not advertised.
+pub fn clear_list_bit(b: &mut Built) {
+    b.func.status &= !0x10;
+    if let Some(f) = b.bus.borrow_mut().funcs.get_mut(&(DF.bus, DF.device, DF.function)) {
+        f.status &= !0x10;
+    }
+}
+
 /// Constructs the transport; returns outcome and violations.
 pub fn construct_case(b: &Built, caps: &[VCap]) -> (String, Vec<(String, String)>, Option<PciTransport>) {
     let want = reference(&b.func, caps);
